@@ -18,7 +18,7 @@ RULE = ('random RREL expressions (own AST: navigation, ~, fixed-name ~, ., .., .
         'name parts. distinct = (expression text, model, query); non-trivial = the reference set is non-empty')
 REQUIRED = {'queries': 5000, 'resolving_queries': 300, 'proxy_queries': 300, 'expressions': 300, 'star_expressions': 50,
             'multi_alternative_resolved': 10, 'grammar_level_loads': 20,
-            'staged_loads': 300, 'staged_member_references_resolved_a_round_later': 300, 'staged_uses_checked': 300}
+            'split_string_loads': 200, 'split_string_loads_with_mixed_delimiters': 100, 'staged_loads': 300, 'staged_member_references_resolved_a_round_later': 300, 'staged_uses_checked': 300}
 
 MENU = ['^packages*.classes', 'packages*.classes', '^packages*.classes.methods', 'packages*.classes.(~sup)*.methods',
         '^classes,^packages*.classes', '.methods,..attrs', 'parent(Class).(~sup)*.attrs', '^(packages,classes)*',
@@ -392,8 +392,72 @@ def staged(ctx, i, rep=None):
                 return
 
 
+SPLIT_GRAMMAR = r"""
+Model: packages*=Package uses*=AnyUse;
+Package: 'package' name=ID '{' (packages+=Package | classes+=Class)* '}';
+Class: 'class' name=ID;
+AnyUse: UseDot | UseColon | UseSlash;
+UseDot: 'dot' name=ID target=[Class|DotName];
+UseColon: 'colon' name=ID target=[Class|ColonName];
+UseSlash: 'slash' name=ID target=[Class|SlashName];
+DotName: ID('.'ID)*;
+ColonName[split='::']: ID('::'ID)*;
+SlashName[split='/']: ID('/'ID)*;
+"""
+
+
+def split_strings(ctx, i, rep=None):
+    """one registered RREL provider (a string under a wildcard key, or one provider object under several keys) serves
+    references whose match rules split the name with different delimiters"""
+    from textx import metamodel_from_str, TextXError
+    from textx.scoping.rrel import create_rrel_scope_provider
+    rep = rep or {'phase': 'split', 'i': i}
+    r = ctx.rng('split', i)
+    paths = [['P', 'Q', 'c'], ['P', 'd'], ['R', 'e'], ['P', 'Q', 'S', 'f']]
+    text = 'package P { package Q { class c package S { class f } } class d } package R { class e }\n'
+    seps = {'dot': '.', 'colon': '::', 'slash': '/'}
+    uses = []
+    for k in range(r.randint(2, 6)):
+        kind = r.choice(sorted(seps))
+        pth = r.choice(paths)
+        uses.append((kind, 'u%d' % k, pth))
+        text += '%s u%d %s\n' % (kind, k, seps[kind].join(pth))
+    how = r.choice(['wildcard-string', 'attr-string', 'one-object-several-keys'])
+    mm = metamodel_from_str(SPLIT_GRAMMAR)
+    if how == 'wildcard-string':
+        mm.register_scope_providers({'*.*': 'packages*.classes'})
+    elif how == 'attr-string':
+        mm.register_scope_providers({'*.target': '+p:packages*.classes'})
+    else:
+        prov = create_rrel_scope_provider('packages*.classes')
+        mm.register_scope_providers({'UseDot.target': prov, 'UseColon.target': prov, 'UseSlash.target': prov})
+    wit = {'model': text, 'registration': how}
+    ctx.count('split_string_loads')
+    if len({u[0] for u in uses}) >= 2:
+        ctx.count('split_string_loads_with_mixed_delimiters')
+    ctx.case(('split', how, tuple(u[0] for u in uses)), len({u[0] for u in uses}) >= 2, wit if ctx.evaluations % 5000 == 7 else None)
+    for attempt in range(2):          # the second load uses the same metamodel again
+        try:
+            m = mm.model_from_str(text)
+        except TextXError as e:
+            ctx.violation(None, 'references written with the delimiter of their match rule (%s) do not all resolve through one '
+                          'registered RREL provider: %s' % (how, str(e)[:120]), wit, rep)
+            return
+        for (kind, un, pth), u in zip(uses, m.uses):
+            tgt = getattr(u.target, '_tx_obj', u.target)
+            chain = []
+            o = tgt
+            while hasattr(o, 'parent') and hasattr(o, 'name'):
+                chain.insert(0, o.name)
+                o = o.parent
+            if chain != pth:
+                ctx.violation(None, 'reference %s %r resolved to %s' % (un, seps[kind].join(pth), '.'.join(chain)), wit, rep)
+                return
+
+
 def run(ctx):
     for i in ctx.indices(400 if ctx.tier == 'quick' else 20000, 'random'):
+        split_strings(ctx, i)
         one(ctx, i)
         with ctx.time_limit(20):
             grammar_level(ctx, i)
@@ -402,7 +466,9 @@ def run(ctx):
 
 
 def replay(ctx, rep):
-    if rep.get('phase') == 'staged':
+    if rep.get('phase') == 'split':
+        split_strings(ctx, rep['i'], rep)
+    elif rep.get('phase') == 'staged':
         staged(ctx, rep['i'], rep)
     elif rep.get('phase') == 'grammar':
         grammar_level(ctx, rep['i'], rep)
